@@ -17,6 +17,12 @@ import (
 var recycleSuffix = ".recycleValidators"
 var skipSchemataField = "skipSchemataResult"
 
+// recycleResultSuffix: the unexported switch of result recycling (set by withRecycleResults); pooledMark: the
+// boolean field of Result that marks a pooled result — the one field the clearing function of the result pool sets
+// to true. Both resolved from the code so that a rename of the field is followed.
+var recycleResultSuffix = ".recycleResult"
+var pooledMark = "wantsRedeemOnMerge"
+
 // ResolveOptionFields finds the field each exported option constructor sets.
 func ResolveOptionFields(p *core.Prog) {
 	fieldSetBy := func(ctor string) string {
@@ -48,6 +54,41 @@ func ResolveOptionFields(p *core.Prog) {
 	}
 	if n := fieldSetBy("WithSkipSchemataResult"); n != "" {
 		skipSchemataField = n
+	}
+	if n := fieldSetBy("withRecycleResults"); n != "" {
+		recycleResultSuffix = "." + n
+	}
+	// the pooled mark: in the function the Result borrow applies to what the pool hands out, the field stored `true`
+	pi := discoverPools(p)
+	if pi.resultType != nil {
+		for bf, t := range pi.borrow {
+			if core.NamedOf(t) != pi.resultType {
+				continue
+			}
+			core.EachInstr(bf, func(i ssa.Instruction) {
+				c, ok := i.(*ssa.Call)
+				if !ok {
+					return
+				}
+				g := core.StaticCallee(c)
+				if g == nil || !p.InSubject(g) || len(g.Blocks) == 0 {
+					return
+				}
+				core.EachInstr(g, func(j ssa.Instruction) {
+					st, ok := j.(*ssa.Store)
+					if !ok {
+						return
+					}
+					k, isK := st.Val.(*ssa.Const)
+					fa, isFA := st.Addr.(*ssa.FieldAddr)
+					if isK && isFA && k.Value != nil && k.Value.ExactString() == "true" {
+						if _, n, ok := core.FieldOf(fa); ok {
+							pooledMark = n
+						}
+					}
+				})
+			})
+		}
 	}
 }
 
@@ -132,7 +173,7 @@ type slotRef struct {
 
 func (s slotRef) name() string {
 	st := s.parent.Underlying().(*types.Struct)
-	n := core.KnownTypeName(s.parent) + "." + st.Field(s.field).Name()
+	n := core.KnownTypeName(s.parent) + "." + core.FieldName(st, s.field)
 	if s.index != nil {
 		if c, ok := core.ConstInt(s.index); ok {
 			return fmt.Sprintf("%s[%d]", n, c)
@@ -583,7 +624,7 @@ func slotInit(p *core.Prog, r *core.Report, si *slotInfo) {
 				return
 			}
 			n++
-			fname := parent.Underlying().(*types.Struct).Field(field).Name()
+			fname := core.FieldName(parent.Underlying().(*types.Struct), field)
 			key := fn + ":" + core.KnownTypeName(parent) + "." + fname
 			if core.IsNilConst(st.Val) {
 				r.OK(rule, key+":clear", p.Pos(st.Pos()), "slot emptied")
